@@ -80,6 +80,7 @@ structure St where
   nextWind : Nat := 0
   eqMode : Bool := false           -- see `sameExtents`
   nextId : Nat := 0                -- identities of captures and delimiters (bookkeeping for the class predicates)
+  pieceBase : Nat := 0             -- `nextId` when the current evaluation (piece of a history) began
   exited : List Nat := []          -- captures whose receiver was left by an error or by invoking the capture itself
   events : List String := []       -- control events (for the coverage report), reversed
 deriving Inhabited
@@ -495,6 +496,8 @@ def step (c : Ctl) (k : List Frame) (st : St) : Ctl × List Frame × St :=
               let st := ev st "invoke"
               -- class predicates (bookkeeping): K08c "capture left abnormally, invoked again", K08b "crosses a delimiter"
               let st := if st.exited.contains id then ev st "orphan-invoke" else st
+              -- K08h: captured by an earlier evaluation (an earlier piece of the history)
+              let st := if id ≤ st.pieceBase then ev st "cross-eval-invoke" else st
               let st := if hasMark id k then { st with exited := id :: st.exited } else st
               let st := if delimIds k != delimIds kt then ev st "mc-cross" else st
               transfer kt wt v k st
